@@ -12,6 +12,12 @@ import PV.Lexer.Model
   `start_of_line` tracking: the Rust code has a `#[cfg(feature = "full-lexer")]` guard that keeps
   the flag unchanged across `Comment` / `NonLogicalNewline`.  Without the feature these variants do
   not exist, so the same function describes both configurations.
+
+  Repaired code (/repo 11fc6d4, C01 finding `type-alias-not-at-line-start`): the transformer carries three state
+  fields, `start_of_line` (used by `match` / `case`), `start_of_statement` (used by `type`: a type
+  alias is a simple statement, so it may also follow a `;` or the `:` of a one-line compound
+  statement) and `nesting` (open brackets after the last returned token; `;` / `:` count only outside
+  brackets).  `SoftSt` is that state, `SoftSt.next` the update at the end of `next()`.
 -/
 namespace PV.Lexer
 
@@ -63,14 +69,15 @@ def typeLook : List Spanned → Bool
     | .name _ | .kw .Type_ | .kw .Match | .kw .Case => typeLoop ts 0
     | _ => false
 
-/-- what `next()` returns for the token `t` followed by `ts`, given `start_of_line` -/
-def softTok (sol : Bool) (t : Spanned) (ts : List Spanned) : Tok :=
+/-- what `next()` returns for the token `t` followed by `ts`, given `start_of_line` (consulted by the
+    `Match | Case` arm) and `start_of_statement` (consulted by the `Type` arm) -/
+def softTok (sol sos : Bool) (t : Spanned) (ts : List Spanned) : Tok :=
   match t.tok with
   | .kw .Match => if !sol then softToName .Match else
       if matchCaseLook ts 0 true false false then t.tok else softToName .Match
   | .kw .Case => if !sol then softToName .Case else
       if matchCaseLook ts 0 true false false then t.tok else softToName .Case
-  | .kw .Type_ => if !sol then softToName .Type_ else
+  | .kw .Type_ => if !sos then softToName .Type_ else
       if typeLook ts then t.tok else softToName .Type_
   | x => x
 
@@ -81,15 +88,46 @@ def nextSol (sol : Bool) (tok : Tok) : Bool :=
   | .startModule | .startInteractive | .newline | .indent | .dedent => true
   | _ => false
 
-def softKwGo : List Spanned → (sol : Bool) → List Spanned
+/-- the update of `nesting` after returning `tok` (`u32`: `+= 1` / `saturating_sub(1)`; a text inside
+    the 32-bit offset space has fewer than 2^32 brackets, so the addition cannot overflow) -/
+def nextNesting (n : Nat) (tok : Tok) : Nat :=
+  match tok with
+  | .op .Lpar | .op .Lsqb | .op .Lbrace => n + 1
+  | .op .Rpar | .op .Rsqb | .op .Rbrace => n - 1
+  | _ => n
+
+/-- the update of `start_of_statement` after returning `tok`; `n` is the ALREADY UPDATED `nesting` -/
+def nextSos (sos : Bool) (n : Nat) (tok : Tok) : Bool :=
+  if tok.isTrivia then sos else
+  match tok with
+  | .startModule | .startInteractive | .newline | .indent | .dedent => true
+  | .op .Semi | .op .Colon => n == 0
+  | _ => false
+
+/-- the fields `start_of_line`, `start_of_statement`, `nesting` of `SoftKeywordTransformer` -/
+structure SoftSt where
+  sol : Bool
+  sos : Bool
+  nesting : Nat
+  deriving DecidableEq, Repr
+
+/-- `SoftKeywordTransformer::new(_, mode)` -/
+def SoftSt.init (mode : Mode) : SoftSt := ⟨mode != .expression, mode != .expression, 0⟩
+
+/-- the state after `next()` has returned `tok` -/
+def SoftSt.next (st : SoftSt) (tok : Tok) : SoftSt :=
+  let n := nextNesting st.nesting tok
+  { sol := nextSol st.sol tok, sos := nextSos st.sos n tok, nesting := n }
+
+def softKwGo : List Spanned → (st : SoftSt) → List Spanned
   | [], _ => []
-  | t :: ts, sol =>
-    let tok := softTok sol t ts
-    { t with tok := tok } :: softKwGo ts (nextSol sol tok)
+  | t :: ts, st =>
+    let tok := softTok st.sol st.sos t ts
+    { t with tok := tok } :: softKwGo ts (st.next tok)
 
 /-- `SoftKeywordTransformer::new(lexer, mode)` drained -/
 def softKw (mode : Mode) (toks : List Spanned) : List Spanned :=
-  softKwGo toks (mode != .expression)
+  softKwGo toks (SoftSt.init mode)
 
 /-- `lexer::lex_starts_at(src, mode, start)` drained up to and including the first error.
     `none` = the Rust code panics. -/
